@@ -6,10 +6,10 @@
    the fuel from there on:
 
    - [search_budget]: the implementation's splice loop makes at most
-       |todo| + 1 + bud (64 - slcount) |path| T
+       |todo| + 1 + bud (slCountMax - slcount) |path| T
      iterations, where T bounds the number of components of the link targets stored in the heap and
      [bud r n T = r*(n+1) + T*r*(r+1)/2] (every splice may lengthen the path by T components and may
-     restart the walk from the root; there are at most 64 splices);
+     restart the walk from the root; there are at most slCountMax = 40 splices);
    - [kwalk_budget]: the kernel's walk makes at most |work| + 1 + (40 - cnt) * T iterations. *)
 From Avfs Require Import Base PathModel PathSpec PathProofs PathCleanProofs PathIterProofs.
 From Avfs Require Import MemFS MemFile World Posix WalkBridge WalkSym.
@@ -79,8 +79,8 @@ Proof.
       * apply on_comp_before.
       * cbn [length] in Hf. lia.
     + destruct (is_nil todo); cbn; discriminate.
-    + destruct (Nat.ltb slCountMax (S slcount)) eqn:Hb64; [cbn; discriminate|].
-      destruct (is_nil todo && slmode_eqb slm SlLstat); [cbn; discriminate|].
+    + destruct (is_nil todo && slmode_eqb slm SlLstat); [cbn; discriminate|].
+      destruct (Nat.ltb slCountMax (S slcount)) eqn:Hb64; [cbn; discriminate|].
       apply Nat.ltb_ge in Hb64.
       destruct (pi_replace_part_spec done todo c t Hok) as (Hg' & reset & pi2 & Hrp2 & Hcase). cbv zeta in Hrp2, Hcase.
       rewrite Hrp2.
@@ -180,9 +180,9 @@ Theorem sym_bridge_lookup_sized (s : fsys) (sv : sview) (slm : slmode) (cs : lis
   length cs + 1 + MAXSYMLINKS * T <= WALK_FUEL ->
   let K := klookup s sv false (follow_of slm) (abs_path cs) in
   let r := search_node s v (abs_path cs) slm in
-  K <> WErr ELOOP -> walk_rel h (v_user v) (v_root v) (precise_of slm) r K.
+  walk_rel h (v_user v) (v_root v) (precise_of slm) r K.
 Proof.
-  intros v h Hos Hwf Hlc Hpv Htb Hrd Hg Hf1 Hf2 K r Hk. subst K r.
+  intros v h Hos Hwf Hlc Hpv Htb Hrd Hg Hf1 Hf2 K r. subst K r.
   assert (Hok : Forall comp_ok cs) by (apply Forall_comp_ok_of; exact Hg).
   apply sym_bridge_lookup; auto.
   - rewrite (klookup_abs_path s sv false (follow_of slm) cs Hg).
